@@ -640,3 +640,382 @@ Proof.
   intros states m base last Hfeq Hm Hbase Hwfs Hlast.
   apply (history_inv states m base last Hfeq Hm Hbase Hwfs Hlast).
 Qed.
+
+(* ------------------------------------------------------------------ *)
+(* T4: unflatten on any key-distinct flat map that agrees pointwise with
+   flatten v [] rebuilds a tree with the same leaves as v.              *)
+
+Definition conv (fuel' : nat) (s : slot) : option value :=
+  match s with
+  | SVal (VLeaf t) => Some (VLeaf t)
+  | SVal (VDict []) => Some (VDict [])
+  | SVal (VDict _) => None
+  | SGroup g => unflatten fuel' g
+  end.
+
+Definition pass2 (fuel' : nat) : list (nat * slot) -> option (list (nat * value)) :=
+  fix go (l : list (nat * slot)) : option (list (nat * value)) :=
+    match l with
+    | [] => Some []
+    | (k, s) :: r =>
+        match conv fuel' s, go r with
+        | Some x, Some r' => Some ((k, x) :: r')
+        | _, _ => None
+        end
+    end.
+
+Lemma pass2_nil (fuel' : nat) : pass2 fuel' [] = Some [].
+Proof. reflexivity. Qed.
+
+Lemma pass2_cons (fuel' : nat) (k : nat) (s : slot) (r : list (nat * slot)) :
+  pass2 fuel' ((k, s) :: r) =
+  match conv fuel' s, pass2 fuel' r with
+  | Some x, Some r' => Some ((k, x) :: r')
+  | _, _ => None
+  end.
+Proof. reflexivity. Qed.
+
+Lemma unflatten_S (n : nat) (f : flatmap) :
+  unflatten (S n) f =
+  match uf_pass1 f [] with
+  | P1Return v => Some v
+  | P1Error => None
+  | P1Nested nested => option_map VDict (pass2 n nested)
+  end.
+Proof. reflexivity. Qed.
+
+Lemma uf_pass1_nil (n : list (nat * slot)) : uf_pass1 [] n = P1Nested n.
+Proof. reflexivity. Qed.
+
+Lemma uf_pass1_root (v : value) (r : flatmap) (n : list (nat * slot)) :
+  uf_pass1 (([], v) :: r) n = P1Return v.
+Proof. reflexivity. Qed.
+
+Lemma uf_pass1_single (k : nat) (v : value) (r : flatmap) (n : list (nat * slot)) :
+  uf_pass1 (([k], v) :: r) n = uf_pass1 r (aset Nat.eqb n k (SVal v)).
+Proof. reflexivity. Qed.
+
+Lemma uf_pass1_deep (k a : nat) (s : path) (v : value) (r : flatmap) (n : list (nat * slot)) :
+  uf_pass1 ((k :: a :: s, v) :: r) n =
+  match aget Nat.eqb n k with
+  | None => uf_pass1 r (aset Nat.eqb n k (SGroup [(a :: s, v)]))
+  | Some (SGroup g) => uf_pass1 r (aset Nat.eqb n k (SGroup (aset path_eqb g (a :: s) v)))
+  | Some (SVal (VDict [])) => uf_pass1 r (aset Nat.eqb n k (SGroup [(a :: s, v)]))
+  | Some (SVal _) => P1Error
+  end.
+Proof. reflexivity. Qed.
+
+Lemma uf_pass1_app (f1 f2 : flatmap) (n : list (nat * slot)) :
+  uf_pass1 (f1 ++ f2) n =
+  match uf_pass1 f1 n with
+  | P1Nested n' => uf_pass1 f2 n'
+  | P1Return v => P1Return v
+  | P1Error => P1Error
+  end.
+Proof.
+  revert n. induction f1 as [|[p x] f1 IH]; intros n; [reflexivity|].
+  cbn [app].
+  destruct p as [|k [|a s]].
+  - reflexivity.
+  - rewrite !uf_pass1_single. apply IH.
+  - rewrite !uf_pass1_deep.
+    destruct (aget Nat.eqb n k) as [[[t|[|kv kvs]]|g]|]; try reflexivity; apply IH.
+Qed.
+
+Definition good (f : flatmap) : Prop :=
+  knodup f /\
+  (forall p x, In (p, x) f -> p <> []) /\
+  (forall k x s y, In ([k], x) f -> In (k :: s, y) f -> s = []).
+
+Lemma NoDup_app_l {A : Type} (l1 l2 : list A) : NoDup (l1 ++ l2) -> NoDup l1.
+Proof.
+  induction l1 as [|a l1 IH]; cbn [app]; intros H; [constructor|].
+  inversion H as [|x l Hnotin Hnd]; subst.
+  constructor; [|apply IH; exact Hnd].
+  intros Hin. apply Hnotin. apply in_or_app. left. exact Hin.
+Qed.
+
+Lemma good_app_l (f1 f2 : flatmap) : good (f1 ++ f2) -> good f1.
+Proof.
+  intros [Hnd [Hne Hpf]]. split; [|split].
+  - unfold knodup in *. rewrite map_app in Hnd. apply NoDup_app_l in Hnd. exact Hnd.
+  - intros p x Hin. apply (Hne p x). apply in_or_app. left. exact Hin.
+  - intros k x s y H1 H2. apply (Hpf k x s y); apply in_or_app; left; assumption.
+Qed.
+
+Definition slot_inv (f : flatmap) (k : nat) (o : option slot) : Prop :=
+  match o with
+  | None => forall s, pget f (k :: s) = None
+  | Some (SVal x) => forall s, pget f (k :: s) = match s with [] => Some x | _ => None end
+  | Some (SGroup g) => g <> [] /\ knodup g /\ forall s, pget g s = pget f (k :: s)
+  end.
+
+Definition p1inv (f : flatmap) (n : list (nat * slot)) : Prop :=
+  NoDup (map fst n) /\ forall k, slot_inv f k (aget Nat.eqb n k).
+
+Lemma slot_inv_ext (f f' : flatmap) (k : nat) (o : option slot) :
+  (forall s, pget f' (k :: s) = pget f (k :: s)) -> slot_inv f k o -> slot_inv f' k o.
+Proof.
+  intros Hext. destruct o as [[x|g]|]; simpl.
+  - intros H s. rewrite Hext. apply H.
+  - intros [H1 [H2 H3]]. split; [exact H1|]. split; [exact H2|].
+    intros s. rewrite Hext. apply H3.
+  - intros H s. rewrite Hext. apply H.
+Qed.
+
+Lemma pget_snoc (f : flatmap) (q : path) (x : value) (p : path) :
+  pget (f ++ [(q, x)]) p =
+  match pget f p with Some y => Some y | None => if path_eqb q p then Some x else None end.
+Proof. unfold pget. rewrite aget_app. reflexivity. Qed.
+
+Lemma path_eqb_cons (a b : nat) (p q : path) :
+  path_eqb (a :: p) (b :: q) = Nat.eqb a b && path_eqb p q.
+Proof. reflexivity. Qed.
+
+Lemma pass1_step (f : flatmap) (k : nat) (s : path) (x : value) (n : list (nat * slot)) :
+  good (f ++ [(k :: s, x)]) -> p1inv f n ->
+  exists n', uf_pass1 [(k :: s, x)] n = P1Nested n' /\ p1inv (f ++ [(k :: s, x)]) n'.
+Proof.
+  intros [Hnd [Hne Hpf]] [Hn Hinv].
+  assert (Hfresh : pget f (k :: s) = None).
+  { unfold pget. apply (aget_notin path_eqb path_eqb_spec).
+    unfold knodup in Hnd. rewrite map_app in Hnd. cbn [map fst] in Hnd.
+    apply NoDup_remove_2 in Hnd. rewrite app_nil_r in Hnd. exact Hnd. }
+  assert (Hlast : In (k :: s, x) (f ++ [(k :: s, x)])).
+  { apply in_or_app. right. left. reflexivity. }
+  assert (Hinf : forall q y, pget f q = Some y -> In (q, y) (f ++ [(k :: s, x)])).
+  { intros q y Hq. apply in_or_app. left.
+    apply (aget_In path_eqb path_eqb_spec). exact Hq. }
+  (* slots of other keys are unaffected *)
+  assert (Hother : forall (sl : slot) k',
+             slot_inv (f ++ [(k :: s, x)]) k (Some sl) ->
+             slot_inv (f ++ [(k :: s, x)]) k' (aget Nat.eqb (aset Nat.eqb n k sl) k')).
+  { intros sl k' Hk.
+    rewrite (aget_aset Nat.eqb nat_eqb_spec).
+    destruct (Nat.eqb k k') eqn:E.
+    - apply Nat.eqb_eq in E. subst k'. exact Hk.
+    - apply (slot_inv_ext f); [|apply Hinv].
+      intros s'. rewrite pget_snoc. rewrite path_eqb_cons, E. cbn [andb].
+      destruct (pget f (k' :: s')); reflexivity. }
+  destruct s as [|a s].
+  - (* a value directly under k *)
+    exists (aset Nat.eqb n k (SVal x)). split; [reflexivity|].
+    split; [apply (aset_nodup Nat.eqb nat_eqb_spec); exact Hn|].
+    intros k'. apply Hother.
+    intros s'. rewrite pget_snoc.
+    assert (Hnone : pget f (k :: s') = None).
+    { destruct (pget f (k :: s')) as [y|] eqn:Ey; [|reflexivity].
+      assert (Hs' : s' = []) by (apply (Hpf k x s' y); [exact Hlast | apply Hinf; exact Ey]).
+      subst s'. rewrite Hfresh in Ey. discriminate Ey. }
+    rewrite Hnone. rewrite path_eqb_cons, Nat.eqb_refl. cbn [andb].
+    destruct s'; reflexivity.
+  - (* a deeper path under k *)
+    rewrite uf_pass1_deep.
+    pose proof (Hinv k) as Hk.
+    destruct (aget Nat.eqb n k) as [[y|g]|] eqn:Ek.
+    + (* a plain value is already stored under k: impossible *)
+      exfalso. cbn [slot_inv] in Hk. specialize (Hk []). cbn in Hk.
+      assert (Habs : a :: s = []) by (apply (Hpf k y (a :: s) x); [apply Hinf; exact Hk | exact Hlast]).
+      discriminate Habs.
+    + exists (aset Nat.eqb n k (SGroup (aset path_eqb g (a :: s) x))). split; [reflexivity|].
+      split; [apply (aset_nodup Nat.eqb nat_eqb_spec); exact Hn|].
+      intros k'. apply Hother.
+      cbn [slot_inv] in Hk. destruct Hk as [Hg1 [Hg2 Hg3]].
+      cbn [slot_inv]. split; [apply aset_nonempty|].
+      split; [apply (aset_nodup path_eqb path_eqb_spec); exact Hg2|].
+      intros s'. unfold pget at 1. rewrite (aget_aset path_eqb path_eqb_spec).
+      rewrite pget_snoc, path_eqb_cons, Nat.eqb_refl. cbn [andb].
+      destruct (path_eqb (a :: s) s') eqn:E.
+      * apply path_eqb_spec in E. subst s'. rewrite Hfresh. reflexivity.
+      * fold (pget g s'). rewrite Hg3. destruct (pget f (k :: s')); reflexivity.
+    + exists (aset Nat.eqb n k (SGroup [(a :: s, x)])). split; [reflexivity|].
+      split; [apply (aset_nodup Nat.eqb nat_eqb_spec); exact Hn|].
+      intros k'. apply Hother.
+      cbn [slot_inv] in Hk.
+      cbn [slot_inv]. split; [discriminate|].
+      split; [unfold knodup; cbn [map fst]; constructor; [intros H; exact H | constructor]|].
+      intros s'. rewrite pget_snoc, path_eqb_cons, Nat.eqb_refl, Hk. cbn [andb].
+      unfold pget. cbn [aget]. reflexivity.
+Qed.
+
+Lemma pass1_spec (f : flatmap) :
+  good f -> exists n, uf_pass1 f [] = P1Nested n /\ p1inv f n.
+Proof.
+  induction f as [|[p x] f IH] using rev_ind; intros Hgood.
+  - exists []. split; [reflexivity|]. split; [constructor|].
+    intros k. cbn [aget slot_inv]. intros s. reflexivity.
+  - destruct (IH (good_app_l _ _ Hgood)) as [n [Hn Hinv]].
+    destruct p as [|k s].
+    + exfalso. destruct Hgood as [_ [Hne _]]. apply (Hne [] x); [|reflexivity].
+      apply in_or_app. right. left. reflexivity.
+    + destruct (pass1_step f k s x n Hgood Hinv) as [n' [Hn' Hinv']].
+      exists n'. split; [|exact Hinv'].
+      rewrite uf_pass1_app, Hn. exact Hn'.
+Qed.
+
+Lemma pass2_spec (fuel' : nat) (R : nat -> value -> Prop) (n : list (nat * slot)) :
+  (forall k sl, In (k, sl) n -> exists u, conv fuel' sl = Some u /\ R k u) ->
+  exists res, pass2 fuel' n = Some res /\ map fst res = map fst n /\
+              (forall k u, In (k, u) res -> R k u).
+Proof.
+  induction n as [|[k sl] n IH]; intros H.
+  - exists []. split; [reflexivity|]. split; [reflexivity|]. intros k u [].
+  - destruct (H k sl (or_introl eq_refl)) as [u [Hu HR]].
+    destruct IH as [res [Hres [Hkeys HRres]]].
+    { intros k' sl' Hin. apply H. right. exact Hin. }
+    exists ((k, u) :: res). rewrite pass2_cons, Hu, Hres.
+    split; [reflexivity|]. split; [cbn [map fst]; rewrite Hkeys; reflexivity|].
+    intros k' u' [Heq|Hin].
+    + inversion Heq; subst. exact HR.
+    + apply HRres. exact Hin.
+Qed.
+
+Lemma lookup_inhabited : forall v : value, exists p x, lookup v p = Some x.
+Proof.
+  induction v as [t|kvs IHkvs] using value_ind'.
+  - exists [], (VLeaf t). reflexivity.
+  - destruct kvs as [|[k c] kvs].
+    + exists [], (VDict []). reflexivity.
+    + inversion IHkvs as [|a l Hc Hrest]; subst. cbn [snd] in Hc.
+      destruct Hc as [p [x Hpx]].
+      exists (k :: p), x. rewrite lookup_cons. cbn [aget]. rewrite Nat.eqb_refl. exact Hpx.
+Qed.
+
+Lemma lookup_nil_some (c x : value) : lookup c [] = Some x -> c = x /\ leaflike x.
+Proof.
+  destruct c as [t|[|kv kvs]]; cbn; intros H; inversion H; subst.
+  - split; [reflexivity|]. left. exists t. reflexivity.
+  - split; [reflexivity|]. right. reflexivity.
+Qed.
+
+Lemma conv_leaflike (fuel' : nat) (x : value) : leaflike x -> conv fuel' (SVal x) = Some x.
+Proof. intros [[t Ht]|Ht]; subst x; reflexivity. Qed.
+
+Lemma flat_fuel_bound (f : flatmap) (p : path) (x : value) :
+  In (p, x) f -> length p < flat_fuel f.
+Proof.
+  unfold flat_fuel. induction f as [|[q y] f IH]; cbn [In fold_right fst]; intros H.
+  - contradiction.
+  - destruct H as [H|H].
+    + inversion H; subst. lia.
+    + specialize (IH H). lia.
+Qed.
+
+Lemma unflatten_spec :
+  forall fuel f v,
+    wf v = true ->
+    (forall p, pget f p = lookup v p) ->
+    knodup f ->
+    (forall p x, In (p, x) f -> length p < fuel) ->
+    exists u, unflatten fuel f = Some u /\ forall p, lookup u p = lookup v p.
+Proof.
+  induction fuel as [|fuel IH]; intros f v Hwf Hget Hnd Hlen.
+  - exfalso. destruct f as [|[p x] f].
+    + destruct (lookup_inhabited v) as [p [x Hpx]].
+      rewrite <- Hget in Hpx. discriminate Hpx.
+    + specialize (Hlen p x (or_introl eq_refl)). lia.
+  - assert (Hin_get : forall p x, In (p, x) f -> lookup v p = Some x).
+    { intros p x Hin. rewrite <- Hget. apply (In_aget path_eqb path_eqb_spec); assumption. }
+    destruct (lookup v []) as [x0|] eqn:Hroot.
+    + (* v is a leaf or the empty dict *)
+      apply lookup_nil_some in Hroot. destruct Hroot as [Heq Hleaf]. subst x0.
+      destruct f as [|[p x] f].
+      * specialize (Hget []). rewrite (lookup_leaflike v [] Hleaf) in Hget. discriminate Hget.
+      * pose proof (Hin_get p x (or_introl eq_refl)) as Hpx.
+        rewrite (lookup_leaflike v p Hleaf) in Hpx.
+        destruct p as [|a p]; [|discriminate Hpx].
+        inversion Hpx; subst x.
+        exists v. split; [|intros p; reflexivity].
+        rewrite unflatten_S, uf_pass1_root. reflexivity.
+    + (* v is a non-empty dict *)
+      destruct v as [t|kvs]; [discriminate Hroot|].
+      apply wf_dict in Hwf. destruct Hwf as [Hkeys Hchildren].
+      assert (Hgood : good f).
+      { split; [exact Hnd|]. split.
+        - intros p x Hin Hp. subst p. rewrite (Hin_get [] x Hin) in Hroot. discriminate Hroot.
+        - intros k x s y H1 H2.
+          apply Hin_get in H1. apply Hin_get in H2.
+          rewrite lookup_cons in H1, H2.
+          destruct (aget Nat.eqb kvs k) as [c|]; [|discriminate H1].
+          apply lookup_nil_some in H1. destruct H1 as [Hc Hleaf]. subst c.
+          rewrite (lookup_leaflike x s Hleaf) in H2.
+          destruct s; [reflexivity | discriminate H2]. }
+      destruct (pass1_spec f Hgood) as [n [Hn [Hnnd Hinv]]].
+      set (R := fun (k : nat) (u : value) => forall s, lookup u s = lookup (VDict kvs) (k :: s)).
+      destruct (pass2_spec fuel R n) as [res [Hres [Hkeysres HR]]].
+      { intros k sl Hin.
+        pose proof (Hinv k) as Hk.
+        rewrite (In_aget Nat.eqb nat_eqb_spec n k sl Hnnd Hin) in Hk.
+        destruct sl as [x|g]; cbn [slot_inv] in Hk.
+        - (* plain value *)
+          pose proof (Hk []) as Hk0. cbn in Hk0. rewrite Hget, lookup_cons in Hk0.
+          destruct (aget Nat.eqb kvs k) as [c|] eqn:Ec; [|discriminate Hk0].
+          apply lookup_nil_some in Hk0. destruct Hk0 as [Hc Hleaf]. subst c.
+          exists x. split; [apply conv_leaflike; exact Hleaf|].
+          intros s. rewrite <- Hget, Hk. apply lookup_leaflike. exact Hleaf.
+        - (* group *)
+          destruct Hk as [Hg1 [Hg2 Hg3]].
+          destruct g as [|[s0 y0] g']; [contradiction Hg1; reflexivity|].
+          assert (Hs0 : lookup (VDict kvs) (k :: s0) = Some y0).
+          { rewrite <- Hget, <- Hg3. unfold pget. cbn [aget]. rewrite path_eqb_refl. reflexivity. }
+          rewrite lookup_cons in Hs0.
+          destruct (aget Nat.eqb kvs k) as [c|] eqn:Ec; [|discriminate Hs0].
+          assert (Hwfc : wf c = true).
+          { apply (aget_In Nat.eqb nat_eqb_spec) in Ec.
+            rewrite Forall_forall in Hchildren. apply (Hchildren (k, c) Ec). }
+          destruct (IH ((s0, y0) :: g') c Hwfc) as [u [Hu Hlook]].
+          + intros s. rewrite Hg3, Hget, lookup_cons, Ec. reflexivity.
+          + exact Hg2.
+          + intros s y Hin'.
+            assert (Hsy : pget f (k :: s) = Some y).
+            { rewrite <- Hg3. apply (In_aget path_eqb path_eqb_spec); assumption. }
+            apply (aget_In path_eqb path_eqb_spec) in Hsy.
+            specialize (Hlen _ _ Hsy). cbn [length] in Hlen. lia.
+          + exists u. split; [exact Hu|].
+            intros s. rewrite Hlook, lookup_cons, Ec. reflexivity. }
+      exists (VDict res). split.
+      * rewrite unflatten_S, Hn, Hres. reflexivity.
+      * intros [|k s].
+        -- (* root: both are non-empty dicts *)
+           rewrite Hroot. destruct res as [|kv res]; [|reflexivity].
+           exfalso. destruct n as [|kn n]; [|discriminate Hkeysres].
+           destruct (lookup_inhabited (VDict kvs)) as [p [x Hpx]].
+           destruct p as [|k s]; [rewrite Hroot in Hpx; discriminate Hpx|].
+           pose proof (Hinv k) as Hk. cbn [aget slot_inv] in Hk.
+           rewrite <- Hget, Hk in Hpx. discriminate Hpx.
+        -- rewrite (lookup_cons res).
+           destruct (aget Nat.eqb res k) as [u|] eqn:Eu.
+           ++ apply (aget_In Nat.eqb nat_eqb_spec) in Eu. apply (HR k u Eu).
+           ++ assert (Hnk : aget Nat.eqb n k = None).
+              { apply (aget_notin Nat.eqb nat_eqb_spec). rewrite <- Hkeysres.
+                intros Hin. apply (in_keys_aget Nat.eqb nat_eqb_spec) in Hin.
+                destruct Hin as [u Hu]. rewrite Hu in Eu. discriminate Eu. }
+              pose proof (Hinv k) as Hk. rewrite Hnk in Hk. cbn [slot_inv] in Hk.
+              rewrite <- Hget, Hk. reflexivity.
+Qed.
+
+Theorem get_state_lookup :
+  forall (f : flatmap) (v : value),
+    wf v = true -> feq f (flatten v []) -> knodup f ->
+    exists u, get_state f = Some u /\ (forall p, lookup u p = lookup v p).
+Proof.
+  intros f v Hwf Hfeq Hnd. unfold get_state.
+  apply unflatten_spec.
+  - exact Hwf.
+  - intros p. unfold pget. rewrite (Hfeq p). apply flatten_lookup. exact Hwf.
+  - exact Hnd.
+  - intros p x Hin. apply (flat_fuel_bound f p x Hin).
+Qed.
+
+(* T5 *)
+Corollary checkpoint_exact :
+  forall states m base last,
+    feq m base -> knodup m -> knodup base ->
+    (forall s, In s states -> wf s = true) -> wf last = true ->
+    exists u, get_state (fst (run_history m base (states ++ [last]))) = Some u /\
+              forall p, lookup u p = lookup last p.
+Proof.
+  intros states m base last Hfeq Hm Hbase Hwfs Hlast.
+  destruct (history_inv states m base last Hfeq Hm Hbase Hwfs Hlast) as [Hf Hn].
+  apply get_state_lookup; assumption.
+Qed.
